@@ -1,11 +1,13 @@
 /-
 The core operations of the world model as ONE step function: `applyOp : World → Op → World × String`.  The driver parses a
 request into an `Op` and answers it with `applyOp`, so the theorems of `Lemmas/Reachable.lean` about every state reachable
-by a history of these operations are theorems about what the driver runs.  (Moves, copies, sorting, renaming, reference
-editing and loading are answered by the driver too, but are not part of this core set.)
+by a history of these operations are theorems about what the driver runs.  The larger alphabet `OpX` / `applyOpX` / `runX` adds
+`set_item_name`, `set_reference_target` and `sort` (`Lemmas/StepX.lean`: the same invariants over all histories of the larger
+alphabet).  (Moves, copies and loading are answered by the driver too, but are not part of either alphabet yet.)
 -/
 import AutosarVerif.Model.FileOps
 import AutosarVerif.Model.Compat
+import AutosarVerif.Model.Sort
 
 namespace AV.W
 
@@ -59,5 +61,20 @@ def applyOp (S : Spec) (V : Env) (rootAttrs : List (Nat × CDv)) (w : World) : O
 /-- the state after a history of core operations, from the empty world -/
 def run (S : Spec) (V : Env) (rootAttrs : List (Nat × CDv)) (ops : List Op) : World :=
   ops.foldl (fun w op => (applyOp S V rootAttrs w op).1) emptyWorld
+
+/-- the larger alphabet: a core operation, `set_item_name`, `sort` -/
+inductive OpX
+  | core (op : Op)
+  | rename (x : Nat) (nm : Bytes)
+  | sort (x : Nat)
+
+def applyOpX (S : Spec) (V : Env) (rootAttrs : List (Nat × CDv)) (w : World) : OpX → World × String
+  | .core op => applyOp S V rootAttrs w op
+  | .rename x nm => shAns (opRename S V w x nm)
+  | .sort x => shAns (opSort S V w x)
+
+/-- the state after a history of the larger alphabet, from the empty world -/
+def runX (S : Spec) (V : Env) (rootAttrs : List (Nat × CDv)) (ops : List OpX) : World :=
+  ops.foldl (fun w op => (applyOpX S V rootAttrs w op).1) emptyWorld
 
 end AV.W
